@@ -64,6 +64,12 @@ type c13kPod struct {
 	// address that point into another interface's table (a pod that lost its teardown, an
 	// ENI that came back under a new index)
 	Stale bool `json:"stale_rules"`
+	// policy-route only: the IPv4 address was used before and the previous owner's host veth and
+	// host route `A/32 dev <that veth>` are still there (its DEL was lost)
+	PrevOwner bool `json:"prev_owner_route"`
+	// exclusive ENI with eth1 only: the ENI of eth1 has, in the host namespace, the ifindex eth0
+	// has inside the pod, so the kernel renumbers it when it is moved in
+	Collide bool `json:"eth1_index_collides"`
 	// exclusive ENI only: a second interface eth1 on its own ENI (MultiNetwork)
 	Multi    bool   `json:"multi"`
 	IP4b     string `json:"ip4_eth1"`
@@ -160,6 +166,7 @@ func c13kGen(t *rapid.T) c13kScenario {
 		p.NoPeer = rapid.IntRange(0, 4).Draw(t, "nopeer") == 0
 		p.Wide16 = rapid.Bool().Draw(t, "wide16")
 		p.Stale = s.DP == c13DPPolicy && rapid.IntRange(0, 2).Draw(t, "stale") == 0
+		p.PrevOwner = s.DP == c13DPPolicy && rapid.IntRange(0, 2).Draw(t, "prevowner") == 0
 		if s.DP == c13DPExclusive && rapid.IntRange(0, 2).Draw(t, "multi") == 0 {
 			p.Multi = true
 			p.NoPeer = rapid.Bool().Draw(t, "nopeer-multi")
@@ -170,6 +177,7 @@ func c13kGen(t *rapid.T) c13kScenario {
 			ip[15] = lastB
 			p.IP6b = ip.String()
 			p.DefaultB = rapid.Bool().Draw(t, "defaultb")
+			p.Collide = rapid.Bool().Draw(t, "collide")
 		}
 		nExtra := rapid.SampledFrom([]int{0, 0, 1, 2}).Draw(t, "extras")
 		for j := 0; j < nExtra; j++ {
@@ -854,9 +862,45 @@ func (e *c13kEnv) doSetup(p int, when string) {
 		}
 		e.c.Label("stale-rules-before-setup")
 	}
+	if s.DP == c13DPPolicy && s.Pods[p].PrevOwner && s.V4 {
+		prev := fmt.Sprintf("prev%d", p)
+		if _, err := netlink.LinkByName(prev); err != nil {
+			e.scaffold(c13kVeth(prev, prev+"p"), "previous owner's veth")
+		}
+		l, err := netlink.LinkByName(prev)
+		e.scaffold(err, "previous owner's veth")
+		_, hp, _ := net.ParseCIDR(c13kHostPrefix(e.ifAddr(p, 0, false)))
+		e.scaffold(netlink.RouteReplace(&netlink.Route{LinkIndex: l.Attrs().Index, Scope: netlink.SCOPE_LINK, Dst: hp}), "previous owner's host route")
+		e.c.Label("prev-owner-route-before-setup")
+	}
 	for i := 0; i < e.ifaces(p); i++ {
 		if s.DP == c13DPExclusive {
-			e.scaffold(c13kVeth(c13kIfEni(p, i), c13kIfEni(p, i)+"p"), "ENI stand-in")
+			made := false
+			if i == 1 && s.Pods[p].Collide {
+				// give the ENI of eth1 the host ifindex that eth0 already occupies inside the pod
+				idx := 0
+				_ = cont.Do(func(ns.NetNS) error {
+					if l, err := netlink.LinkByName(c13kIfName(0)); err == nil {
+						idx = l.Attrs().Index
+					}
+					return nil
+				})
+				if idx > 0 {
+					name := c13kIfEni(p, i)
+					if err := netlink.LinkAdd(&netlink.Veth{LinkAttrs: netlink.LinkAttrs{Name: name, Index: idx}, PeerName: name + "p"}); err == nil {
+						for _, n := range []string{name, name + "p"} {
+							l, err := netlink.LinkByName(n)
+							e.scaffold(err, "ENI stand-in")
+							e.scaffold(netlink.LinkSetUp(l), "ENI stand-in up")
+						}
+						made = true
+						e.c.Label("eth1-eni-index-collides")
+					}
+				}
+			}
+			if !made {
+				e.scaffold(c13kVeth(c13kIfEni(p, i), c13kIfEni(p, i)+"p"), "ENI stand-in")
+			}
 			l, err := netlink.LinkByName(c13kIfEni(p, i))
 			e.scaffold(err, "ENI stand-in")
 			eni = l
